@@ -460,8 +460,10 @@ pub fn gen_pipe(rng: &mut Rng, cfg: &GenCfg) -> Pipe {
             Op::Next
         } else if roll < 50 && sw.back && cur.de && sw.partial {
             Op::NextBack
-        } else if roll < 58 && sw.nth && sw.partial {
+        } else if roll < 56 && sw.nth && sw.partial {
             Op::Nth(rng.below(3))
+        } else if roll < 60 && sw.nth && sw.back && cur.de && sw.partial {
+            Op::NthBack(rng.below(3))
         } else if sw.wrap && cur.depth < cfg.max_depth + if sinks { 0 } else { 0 } {
             if cur.plain {
                 Op::Wrap(Stage::MapId)
@@ -486,7 +488,7 @@ pub fn gen_pipe(rng: &mut Rng, cfg: &GenCfg) -> Pipe {
         };
         match &op {
             Op::Next | Op::NextBack => cur.rem = cur.rem.saturating_sub(1),
-            Op::Nth(k) => cur.rem = cur.rem.saturating_sub(k + 1),
+            Op::Nth(k) | Op::NthBack(k) => cur.rem = cur.rem.saturating_sub(k + 1),
             Op::Wrap(st) => apply_model(&mut cur, st),
         }
         ops.push(op);
@@ -495,7 +497,12 @@ pub fn gen_pipe(rng: &mut Rng, cfg: &GenCfg) -> Pipe {
         let r = rng.below(100);
         let (drain, handoff) = if sinks { (3, 93) } else { (35, 88) };
         if r < drain {
-            Terminal::Drain
+            match rng.below(8) {
+                0 => Terminal::Count,
+                1 => Terminal::Last,
+                2 => Terminal::ForEach,
+                _ => Terminal::Drain,
+            }
         } else if r < handoff {
             Terminal::HandOff(gen_sink(rng, cfg, &cur))
         } else {
